@@ -1,9 +1,617 @@
-// C14: not built yet (stub so that main.rs is already wired; replace the body, keep the two signatures).
-use crate::util::Sink;
+// C14: reconstruction stages are total on physical inputs and return finite geometry.
+//
+// All lines of this module are implementation-only oracles (`rel…`, a TEST on the real code under catch_unwind):
+// the observation is `holds` or `fails <detail>`; the model runner answers `holds` (the class the skeleton
+// theorems predict on the named numeric hypotheses: never panic; returned parameters finite; t in [-pi, pi]).
+//
+//   rel14p <n> <r phi z>*n          cluster_spacepoints -> Track::try_from(each cluster) -> find_vertices
+//   rel14f <n> <r phi z>*n          Track::try_from(Cluster::verif_from_points(points)), n >= 3
+//   rel14v <k> <x0 y0 z0 r phi0 h t_inner t_outer>*k      find_vertices on tracks built by Track::verif_from_params
+//   rel14kf-tinyphi-p / rel14kf-tinyphi-f <n> <r phi z>*n     the oracles of rel14p / rel14f on the class of the OPEN
+//                                   FINDING `tinyphi` (all |phi| <= 1e-160 rad, not exactly collinear: the cluster is
+//                                   straight to better than 1e-155 m, the initial circle has a radius > 1e154 m and
+//                                   closest_t evaluates inf/inf): the unchanged tree panics on these
+//   fit3 <n> <r phi z>*n            differential: `noinit` / `track` of Track::try_from against the model of
+//                                   three_template_points (coq/Recon/Fit.v: fit_outcome)
+// floats are 16 hex digits of the bit pattern.
+use crate::c16::{bits, log_uniform, phase, pitch, sign, spoint, unbits, uniform};
+use crate::util::*;
+use alpha_g_physics::reconstruction::{
+    cluster_spacepoints, find_vertices, verif_helix_at, verif_helix_closest_t, verif_helix_closest_to_beamline, Cluster,
+    Track,
+    TryTrackFromClusterError,
+};
+use alpha_g_physics::SpacePoint;
+use std::f64::consts::PI;
+use uom::si::length::meter;
 
-pub fn run(_tier: &str, _seed: u64, _s: &mut Sink) {}
+pub type P3 = [f64; 3];
 
-/// implementation observation for a case line of this module (None: not one of mine)
-pub fn observe_line(_line: &str) -> Option<String> {
+fn in_range(t: f64) -> bool {
+    t >= -PI && t <= PI
+}
+
+/// checks on a returned track; None = fine
+fn track_defect(t: &Track) -> Option<String> {
+    let p = t.verif_params();
+    if !p.iter().all(|x| x.is_finite()) {
+        return Some(format!(
+            "ok-track finite=0 params={}",
+            p.iter().map(|x| bits(*x)).collect::<Vec<_>>().join(",")
+        ));
+    }
+    let (ti, to) = (t.t_inner(), t.t_outer());
+    if !in_range(ti) || !in_range(to) {
+        return Some(format!("ok-track finite=1 t_inner={} t_outer={} out-of-range-or-nan", bits(ti), bits(to)));
+    }
+    for tt in [ti, to] {
+        let c = t.at(tt);
+        if !(c.x.get::<meter>().is_finite() && c.y.get::<meter>().is_finite() && c.z.get::<meter>().is_finite()) {
+            return Some("ok-track at(t) not finite".to_string());
+        }
+    }
     None
+}
+
+fn vertex_defect(tracks: Vec<Track>) -> Option<String> {
+    let n = tracks.len();
+    let res = find_vertices(tracks);
+    let mut count = res.remainder.len() + res.secondaries.iter().map(|v| v.tracks.len()).sum::<usize>();
+    if let Some(v) = &res.primary {
+        count += v.tracks.len();
+        let p = v.position;
+        if !(p.x.get::<meter>().is_finite() && p.y.get::<meter>().is_finite() && p.z.get::<meter>().is_finite()) {
+            return Some("vertex position not finite".to_string());
+        }
+        for (_, t) in &v.tracks {
+            if !in_range(*t) {
+                return Some(format!("vertex track t={} out-of-range-or-nan", bits(*t)));
+            }
+        }
+    }
+    if count != n {
+        return Some(format!("vertexing lost tracks {count} != {n}"));
+    }
+    None
+}
+
+pub fn points_of(v: &[P3]) -> Vec<SpacePoint> {
+    v.iter().map(|p| spoint(p[0], p[1], p[2])).collect()
+}
+
+/// (observation, outcome class for the histogram)
+fn pipeline(pts: Vec<P3>) -> (String, String) {
+    let r = catch(move || {
+        let n = pts.len();
+        let res = cluster_spacepoints(points_of(&pts));
+        let total: usize = res.clusters.iter().map(|c| c.iter().count()).sum::<usize>() + res.remainder.len();
+        if total != n {
+            return (format!("fails clustering lost points {total} != {n}"), "fail".to_string());
+        }
+        let nclusters = res.clusters.len();
+        let mut tracks = Vec::new();
+        let mut noinit = 0;
+        for c in res.clusters {
+            match Track::try_from(c) {
+                Ok(t) => {
+                    if let Some(d) = track_defect(&t) {
+                        return (format!("fails {d}"), "fail".to_string());
+                    }
+                    tracks.push(t);
+                }
+                Err(TryTrackFromClusterError::NoInitialParameters) => noinit += 1,
+            }
+        }
+        let nt = tracks.len();
+        if let Some(d) = vertex_defect(tracks) {
+            return (format!("fails {d}"), "fail".to_string());
+        }
+        ("holds".to_string(), format!("clusters={} tracks={} noinit={}", nclusters.min(3), nt.min(3), noinit.min(2)))
+    });
+    r.unwrap_or_else(|| ("fails panic".to_string(), "panic".to_string()))
+}
+
+fn fit_only(pts: Vec<P3>) -> (String, String) {
+    let r = catch(move || match Track::try_from(Cluster::verif_from_points(points_of(&pts))) {
+        Ok(t) => match track_defect(&t) {
+            Some(d) => (format!("fails {d}"), "fail".to_string()),
+            None => ("holds".to_string(), "ok-track".to_string()),
+        },
+        Err(TryTrackFromClusterError::NoInitialParameters) => ("holds".to_string(), "err-noinit".to_string()),
+    });
+    r.unwrap_or_else(|| ("fails panic".to_string(), "panic".to_string()))
+}
+
+fn fit_class(pts: Vec<P3>) -> String {
+    let r = catch(move || match Track::try_from(Cluster::verif_from_points(points_of(&pts))) {
+        Ok(_) => "track".to_string(),
+        Err(TryTrackFromClusterError::NoInitialParameters) => "noinit".to_string(),
+    });
+    r.unwrap_or_else(|| "panic".to_string())
+}
+
+fn vertex_only(trs: Vec<[f64; 8]>) -> (String, String) {
+    let r = catch(move || {
+        let tracks: Vec<Track> = trs
+            .iter()
+            .map(|p| Track::verif_from_params([p[0], p[1], p[2], p[3], p[4], p[5]], p[6], p[7]))
+            .collect();
+        let res = find_vertices(tracks.clone());
+        let class = match &res.primary {
+            Some(v) => format!("primary={}", v.tracks.len().min(4)),
+            None => "no-primary".to_string(),
+        };
+        match vertex_defect(tracks) {
+            Some(d) => (format!("fails {d}"), "fail".to_string()),
+            None => ("holds".to_string(), class),
+        }
+    });
+    r.unwrap_or_else(|| ("fails panic".to_string(), "panic".to_string()))
+}
+
+pub fn parse_floats(f: &[&str]) -> Option<Vec<f64>> {
+    f.iter().map(|s| unbits(s)).collect()
+}
+
+pub fn observe_line(line: &str) -> Option<String> {
+    let f: Vec<&str> = line.split(' ').collect();
+    match f[0] {
+        "rel14p" | "rel14f" | "fit3" | "rel14kf-tinyphi-p" | "rel14kf-tinyphi-f" => {
+            let n: usize = f.get(1)?.parse().ok()?;
+            if f.len() != 2 + 3 * n {
+                return None;
+            }
+            let v = parse_floats(&f[2..])?;
+            let pts: Vec<P3> = v.chunks(3).map(|c| [c[0], c[1], c[2]]).collect();
+            Some(match f[0] {
+                "rel14p" | "rel14kf-tinyphi-p" => pipeline(pts).0,
+                "rel14f" | "rel14kf-tinyphi-f" => fit_only(pts).0,
+                _ => fit_class(pts),
+            })
+        }
+        "rel14v" => {
+            let n: usize = f.get(1)?.parse().ok()?;
+            if f.len() != 2 + 8 * n {
+                return None;
+            }
+            let v = parse_floats(&f[2..])?;
+            let trs: Vec<[f64; 8]> = v.chunks(8).map(|c| [c[0], c[1], c[2], c[3], c[4], c[5], c[6], c[7]]).collect();
+            Some(vertex_only(trs).0)
+        }
+        _ => None,
+    }
+}
+
+// ------------------------------------------------------------------------------------------------
+// generators
+// ------------------------------------------------------------------------------------------------
+const RMIN: f64 = 0.05;
+const RMAX: f64 = 0.25;
+const ZMAX: f64 = 1.3;
+
+fn cyl(x: f64, y: f64, z: f64) -> P3 {
+    [x.hypot(y), y.atan2(x), z]
+}
+fn inside(p: &P3) -> bool {
+    p[0] >= RMIN && p[0] <= RMAX && p[2].abs() <= ZMAX && p[0].is_finite() && p[1].is_finite()
+}
+fn perturbation(r: &mut Rng) -> f64 {
+    match r.below(6) {
+        0 => 0.0,
+        1 => r.pick(&[1e-18, 1e-17, 1e-16, 1e-15, 1e-12, 1e-9, 1e-6, 1e-3, 1e-2]),
+        _ => log_uniform(r, 1e-18, 1e-2),
+    }
+}
+fn jitter(r: &mut Rng, p: P3, eps: f64) -> P3 {
+    if eps == 0.0 {
+        return p;
+    }
+    let q = [
+        p[0] + eps * uniform(r, -1.0, 1.0),
+        p[1] + eps / p[0].max(RMIN) * uniform(r, -1.0, 1.0),
+        p[2] + eps * uniform(r, -1.0, 1.0),
+    ];
+    [q[0].clamp(RMIN, RMAX), q[1], q[2].clamp(-ZMAX, ZMAX)]
+}
+
+/// points of a helix (parameters as in the library: centre, radius, phase, pitch) that lie in the volume
+fn helix_points(r: &mut Rng, n: usize, h: f64, eps: f64) -> Vec<P3> {
+    // a circle that crosses the annulus: passes at distance d0 from the axis, radius rad
+    let rad = match r.below(6) {
+        0 => r.pick(&[0.03, 5.0, 0.15, 0.125]),
+        _ => log_uniform(r, 0.03, 5.0),
+    };
+    let d0 = match r.below(4) {
+        0 => 0.0,
+        _ => uniform(r, 0.0, 0.1),
+    };
+    let dir = uniform(r, -PI, PI);
+    // centre at distance rad + d0 (or |rad - d0|) from the axis
+    let dc = if r.chance(1, 2) { rad + d0 } else { (rad - d0).abs() };
+    let (x0, y0) = (dc * dir.cos(), dc * dir.sin());
+    let z0 = uniform(r, -1.0, 1.0);
+    let phi0 = uniform(r, -PI, PI);
+    let hp = [x0, y0, z0, rad, phi0, h];
+    let mut out = Vec::new();
+    // sample t densely, keep what is in the volume, then thin out to n points
+    let m = 4000;
+    let mut cand = Vec::new();
+    for i in 0..m {
+        let t = -PI + 2.0 * PI * (i as f64) / (m as f64);
+        let c = verif_helix_at(hp, t);
+        let p = cyl(c.x.get::<meter>(), c.y.get::<meter>(), c.z.get::<meter>());
+        if inside(&p) {
+            cand.push(p);
+        }
+    }
+    if cand.is_empty() {
+        return out;
+    }
+    for k in 0..n {
+        let p = if r.chance(1, 3) {
+            cand[r.below(cand.len() as u64) as usize]
+        } else {
+            cand[(k * cand.len()) / n]
+        };
+        out.push(jitter(r, p, eps));
+    }
+    out
+}
+
+/// points on a straight line in x-y (exactly collinear where the coordinates allow it), any z behaviour
+fn line_points(r: &mut Rng, n: usize, eps: f64) -> Vec<P3> {
+    let mut out = Vec::new();
+    match r.below(5) {
+        4 => {
+            // radial line at phi = 0 with an angular scatter far below the float resolution elsewhere, but above the
+            // class of the open finding `tinyphi` (<= 1e-144): circle radii up to 1e130 m
+            let sc = log_uniform(r, 1e-130, 1e-19);
+            let dz = r.pick(&[0.0, 0.01, 0.003, 1e-300]);
+            let z0 = uniform(r, -1.0, 1.0);
+            for i in 0..n {
+                out.push([uniform(r, 0.105, 0.2), sc * uniform(r, -1.0, 1.0), (z0 + dz * i as f64).clamp(-ZMAX, ZMAX)]);
+            }
+        }
+        0 => {
+            // radial line: same phi, exact in x-y for phi in {0, pi, ...}
+            let phi = match r.below(3) {
+                0 => r.pick(&[0.0, PI, -PI, PI / 2.0, -PI / 2.0, PI / 4.0, 1.0, 0.5]),
+                _ => uniform(r, -PI, PI),
+            };
+            for _ in 0..n {
+                let p = [uniform(r, RMIN, RMAX), phi, uniform(r, -ZMAX, ZMAX)];
+                out.push(jitter(r, p, eps));
+            }
+        }
+        _ => {
+            // general line a + s d
+            let a = uniform(r, -0.2, 0.2);
+            let th = uniform(r, -PI, PI);
+            let (nx, ny) = (th.cos(), th.sin());
+            let zs = uniform(r, -3.0, 3.0);
+            let z0 = uniform(r, -1.0, 1.0);
+            let mut tries = 0;
+            while out.len() < n && tries < 50 * n + 100 {
+                tries += 1;
+                let s = uniform(r, -0.25, 0.25);
+                let p = cyl(a * nx - s * ny, a * ny + s * nx, z0 + zs * s);
+                if inside(&p) {
+                    out.push(jitter(r, p, eps));
+                }
+            }
+        }
+    }
+    out
+}
+
+fn origin_circle_points(r: &mut Rng, n: usize, eps: f64) -> Vec<P3> {
+    // circle through the origin: radius rad, centre direction phic: r = 2 rad cos(phi - phic)
+    let rad = match r.below(4) {
+        0 => r.pick(&[0.03, 0.125, 0.0625, 5.0, 0.1]),
+        _ => log_uniform(r, 0.03, 5.0),
+    };
+    let phic = match r.below(4) {
+        0 => r.pick(&[0.0, PI / 2.0, PI, -PI / 2.0]),
+        _ => uniform(r, -PI, PI),
+    };
+    let h = pitch(r).0;
+    let mut out = Vec::new();
+    let mut tries = 0;
+    while out.len() < n && tries < 50 * n + 100 {
+        tries += 1;
+        let rr = uniform(r, RMIN, RMAX.min(2.0 * rad));
+        if rr > 2.0 * rad {
+            continue;
+        }
+        let a = (rr / (2.0 * rad)).acos() * sign(r);
+        let t = 2.0 * a; // angle at the centre
+        let p = [rr, phic + a, (h / (2.0 * PI) * t).clamp(-ZMAX, ZMAX)];
+        if inside(&p) {
+            out.push(jitter(r, p, eps));
+        }
+    }
+    out
+}
+
+/// class of the open finding `tinyphi`: a radial line at phi = 0 with an angular scatter of at most 1e-160 rad
+fn tinyphi_points(r: &mut Rng, n: usize) -> Vec<P3> {
+    let s = match r.below(3) {
+        0 => r.pick(&[1e-160, 1e-200, 1e-250, 1e-300]),
+        _ => log_uniform(r, 1e-300, 1e-160),
+    };
+    let dz = r.pick(&[0.0, 0.01, 0.003, 1e-300]);
+    let z0 = uniform(r, -1.0, 1.0);
+    (0..n)
+        .map(|i| {
+            let rr = if n <= 16 { 0.105 + 0.09 * i as f64 / n as f64 } else { uniform(r, 0.105, 0.2) };
+            [rr, s * uniform(r, -1.0, 1.0), (z0 + dz * i as f64).clamp(-ZMAX, ZMAX)]
+        })
+        .collect()
+}
+
+fn dyadic_points(r: &mut Rng, n: usize) -> Vec<P3> {
+    let kr = r.pick(&[16.0, 32.0, 64.0, 128.0, 1024.0]);
+    let kp = r.pick(&[1.0, 2.0, 4.0, 8.0, 64.0]);
+    let kz = r.pick(&[1.0, 4.0, 16.0, 256.0]);
+    let cart = r.chance(1, 3);
+    let mut out = Vec::new();
+    let mut tries = 0;
+    while out.len() < n && tries < 100 * n + 100 {
+        tries += 1;
+        let p = if cart {
+            let x = (uniform(r, -0.25, 0.25) * kr).round() / kr;
+            let y = (uniform(r, -0.25, 0.25) * kr).round() / kr;
+            cyl(x, y, (uniform(r, -ZMAX, ZMAX) * kz).round() / kz)
+        } else {
+            [
+                (uniform(r, RMIN, RMAX) * kr).round() / kr,
+                (uniform(r, -PI, PI) * kp).round() / kp,
+                (uniform(r, -ZMAX, ZMAX) * kz).round() / kz,
+            ]
+        };
+        if inside(&p) {
+            out.push(p);
+        }
+    }
+    out
+}
+
+fn random_points(r: &mut Rng, n: usize) -> Vec<P3> {
+    (0..n)
+        .map(|_| {
+            [
+                match r.below(10) {
+                    0 => r.pick(&[RMIN, RMAX, 0.109, 0.182]),
+                    _ => uniform(r, RMIN, RMAX),
+                },
+                uniform(r, -PI, PI),
+                match r.below(10) {
+                    0 => r.pick(&[0.0, ZMAX, -ZMAX]),
+                    _ => uniform(r, -ZMAX, ZMAX),
+                },
+            ]
+        })
+        .collect()
+}
+
+/// one point set of the quantifier; returns the family label
+pub fn family(r: &mut Rng, n: usize) -> (Vec<P3>, &'static str) {
+    let eps = perturbation(r);
+    match r.below(12) {
+        0 | 1 | 2 => {
+            let h = pitch(r).0;
+            (helix_points(r, n, h, eps), "helix")
+        }
+        3 | 4 => (line_points(r, n, eps), "collinear"),
+        5 => {
+            // repeated points: a few distinct ones, each many times
+            let k = r.range(1, 4) as usize;
+            let base = random_points(r, k);
+            ((0..n).map(|_| base[r.below(k as u64) as usize]).collect(), "repeated")
+        }
+        6 => {
+            // equal radii
+            let rr = uniform(r, RMIN, RMAX);
+            let mut v = random_points(r, n);
+            for p in v.iter_mut() {
+                p[0] = rr;
+            }
+            if r.chance(1, 2) {
+                // short arc so that it is one cluster
+                let c = uniform(r, -PI, PI);
+                for (i, p) in v.iter_mut().enumerate() {
+                    p[1] = c + 0.02 * i as f64 / rr / 4.0;
+                    p[2] = 0.01 * i as f64;
+                    p[2] = p[2].clamp(-ZMAX, ZMAX);
+                }
+            }
+            (v, "equal-radii")
+        }
+        7 => {
+            // vertical line: same r, phi; z spread (step below 3 cm so that it is one cluster)
+            let (rr, ph) = (uniform(r, RMIN, RMAX), uniform(r, -PI, PI));
+            let z0 = uniform(r, -1.0, 1.0);
+            let step = r.pick(&[0.0, 1e-17, 1e-6, 0.001, 0.02]);
+            (
+                (0..n).map(|i| jitter(r, [rr, ph, (z0 + step * i as f64).clamp(-ZMAX, ZMAX)], eps)).collect(),
+                "vertical",
+            )
+        }
+        8 => (origin_circle_points(r, n, eps), "origin-circle"),
+        9 => (dyadic_points(r, n), "dyadic"),
+        10 => (random_points(r, n), "random"),
+        _ => {
+            // 1..4 tracks + noise
+            let k = r.range(1, 4) as usize;
+            let mut v = Vec::new();
+            for _ in 0..k {
+                let h = pitch(r).0;
+                let m = (n / (k + 1)).max(1);
+                if r.chance(1, 4) {
+                    v.extend(line_points(r, m, eps));
+                } else {
+                    v.extend(helix_points(r, m, h, eps));
+                }
+            }
+            let rest = n.saturating_sub(v.len());
+            v.extend(random_points(r, rest));
+            v.truncate(n);
+            (v, "tracks+noise")
+        }
+    }
+}
+
+fn size(r: &mut Rng, max: usize) -> usize {
+    match r.below(10) {
+        0 => r.pick(&[0usize, 1, 2, 3, 12, 13, 14]).min(max),
+        1 => max,
+        2 | 3 => r.range(13, 40.min(max as u64)) as usize,
+        _ => r.range(0, max as u64) as usize,
+    }
+}
+
+pub fn case_points(tag: &str, pts: &[P3]) -> String {
+    let mut s = format!("{tag} {}", pts.len());
+    for p in pts {
+        for x in p {
+            s.push(' ');
+            s.push_str(&bits(*x));
+        }
+    }
+    s
+}
+
+/// a track the vertex finder will consider: passes within a few cm of the beamline
+pub fn track_params(r: &mut Rng) -> [f64; 8] {
+    let rad = match r.below(6) {
+        0 => r.pick(&[0.03, 5.0]),
+        _ => log_uniform(r, 0.03, 5.0),
+    };
+    let dca = match r.below(6) {
+        0 => 0.0,
+        1 => r.pick(&[0.053, 0.0529, 0.0531, 0.1]),
+        _ => uniform(r, 0.0, 0.06),
+    };
+    let dir = uniform(r, -PI, PI);
+    let dc = if r.chance(1, 2) { rad + dca } else { (rad - dca).abs() };
+    let (h, _) = pitch(r);
+    let z0 = match r.below(5) {
+        0 => 0.0,
+        _ => uniform(r, -1.0, 1.0),
+    };
+    let hp = [dc * dir.cos(), dc * dir.sin(), z0, rad, phase(r), h];
+    // t_inner / t_outer as the library computes them: closest t to a point near the inner / outer cathode
+    let tt = |r: &mut Rng, rr: f64| -> f64 {
+        match r.below(5) {
+            0 => uniform(r, -PI, PI),
+            1 => r.pick(&[PI, -PI, 0.0]),
+            _ => {
+                let t0 = uniform(r, -PI, PI);
+                let c = verif_helix_at(hp, t0);
+                let p = cyl(c.x.get::<meter>(), c.y.get::<meter>(), c.z.get::<meter>());
+                verif_helix_closest_t(hp, spoint(rr, p[1], p[2].clamp(-ZMAX, ZMAX)), f64::EPSILON, 20)
+            }
+        }
+    };
+    let ti = tt(r, 0.109);
+    let to = tt(r, 0.182);
+    [hp[0], hp[1], hp[2], hp[3], hp[4], hp[5], ti, to]
+}
+
+pub fn run(tier: &str, seed: u64, s: &mut Sink) {
+    let mut r = Rng::new(seed ^ 0xC14);
+    let thorough = tier == "thorough";
+    let max_n = if thorough { 2000 } else { 300 };
+    let (n_pipe, n_fit, n_vtx, n_fit3) = if thorough { (1500, 6000, 6000, 20000) } else { (150, 500, 600, 2500) };
+
+    for _ in 0..n_pipe {
+        let n = size(&mut r, max_n);
+        let (pts, fam) = family(&mut r, n);
+        let (obs, class) = pipeline(pts.clone());
+        s.put(&case_points("rel14p", &pts), &obs, &format!("pipeline:{fam}:{class}"), pts.len() >= 13);
+    }
+    for _ in 0..n_fit {
+        // the fit alone: cluster-sized point sets (3 ..), all degenerate families
+        let n = match r.below(6) {
+            0 => r.pick(&[3usize, 4, 13]),
+            1 => r.range(13, (max_n as u64).min(400)) as usize,
+            _ => r.range(3, 40) as usize,
+        };
+        let (mut pts, fam) = family(&mut r, n);
+        if pts.len() < 3 {
+            pts = random_points(&mut r, 3);
+        }
+        let (obs, class) = fit_only(pts.clone());
+        s.put(&case_points("rel14f", &pts), &obs, &format!("fit:{fam}:{class}"), true);
+    }
+    for _ in 0..n_vtx {
+        let k = r.range(0, 8) as usize;
+        let mut trs: Vec<[f64; 8]> = Vec::new();
+        let shared_z = uniform(&mut r, -1.0, 1.0);
+        let tie = r.below(6);
+        for i in 0..k {
+            let mut t = track_params(&mut r);
+            match tie {
+                0 if i > 0 && r.chance(1, 2) => t = trs[r.below(i as u64) as usize], // identical tracks
+                1 => t[2] = shared_z,                                                 // same z0
+                3 | 4 => {
+                    // same z of closest approach to the beamline (exactly, or within 2 cm): a common vertex
+                    let zb = verif_helix_closest_to_beamline([t[0], t[1], t[2], t[3], t[4], t[5]]).z.get::<meter>();
+                    let dz = if tie == 3 { 0.0 } else { uniform(&mut r, -0.02, 0.02) };
+                    t[2] = (t[2] - zb + shared_z + dz).clamp(-3.0, 3.0);
+                }
+                2 if i > 0 => t[3] = trs[0][3],                                       // equal radii (ties in the radius sums)
+                _ => {}
+            }
+            trs.push(t);
+        }
+        let (obs, class) = vertex_only(trs.clone());
+        let mut c = format!("rel14v {}", trs.len());
+        for t in &trs {
+            for x in t {
+                c.push(' ');
+                c.push_str(&bits(*x));
+            }
+        }
+        s.put(&c, &obs, &format!("vertex:k={k}:{class}"), k >= 2);
+    }
+    // the class of the open finding `tinyphi` under its own tags (a known-finding recogniser keys on the prefix rel14kf-)
+    for i in 0..(if thorough { 60 } else { 12 }) {
+        let n = if i % 2 == 0 { r.range(13, 24) as usize } else { r.range(3, 8) as usize };
+        let pts = tinyphi_points(&mut r, n);
+        if i % 2 == 0 {
+            let (obs, class) = pipeline(pts.clone());
+            s.put(&case_points("rel14kf-tinyphi-p", &pts), &obs, &format!("known-finding:tinyphi:pipeline:{class}"), true);
+        } else {
+            let (obs, class) = fit_only(pts.clone());
+            s.put(&case_points("rel14kf-tinyphi-f", &pts), &obs, &format!("known-finding:tinyphi:fit:{class}"), true);
+        }
+    }
+    for _ in 0..n_fit3 {
+        // the NoInitialParameters decision: small clusters of every family, so that ties and exact collinearity are common
+        let n = match r.below(4) {
+            0 => 3,
+            1 => r.range(3, 6) as usize,
+            _ => r.range(3, 30) as usize,
+        };
+        let (mut pts, fam) = family(&mut r, n);
+        if pts.len() < 3 {
+            pts = dyadic_points(&mut r, 3);
+        }
+        if pts.len() < 3 {
+            pts = random_points(&mut r, 3);
+        }
+        if r.chance(1, 4) {
+            // duplicate some points / radii to force ties in minmax_by_key and min_by
+            let k = pts.len();
+            let (i, j) = (r.below(k as u64) as usize, r.below(k as u64) as usize);
+            if r.chance(1, 2) {
+                pts[i] = pts[j];
+            } else {
+                pts[i][0] = pts[j][0];
+            }
+        }
+        let obs = fit_class(pts.clone());
+        s.put(&case_points("fit3", &pts), &obs, &format!("fit3:{fam}:{obs}"), true);
+    }
 }
